@@ -62,6 +62,14 @@ CHECKS["C09"] = dict(
     ref="C09",
 )
 
+CHECKS["C14"] = dict(
+    technique="hand-written Coq model of the CLI and config parsers tied by vm_compute correspondence on generated argument vectors and TOML documents; Coq proofs of totality (only ValueError) for all inputs, CLI = config for option lists of any length, file-position independence, and the merge laws over the translated Settings.merge",
+    category="proof",
+    text="Lib/Cli.v models parse_command_line_args (as a fold/state machine), parse_config_file over a TOML value type, and their helpers; it is compared with the real functions on ~3000 generated argument vectors and documents per quick run (valid and malformed: wrong types at every key, unknown keys, bad amend tables, non-table tool). Proved on the model: cli_total / cfg_total (for every argv / every TOML value the result is Ok or ValueError), cfg_cli_equiv (the same options written both ways give the same settings, lists of any length), files_position_independent (induction over option segments), merge laws (on Settings.merge translated from source). The property's own oracles run on the real code: CLI vs config, argument permutations, merge laws, and 20 malformed inputs through the real CLI requiring one `refurb:` line and exit 1.",
+    note="Trusted: Coq kernel; the model-code correspondence for Lib/Cli.v (differential testing); tomllib; ASCII digits only in codes and versions.",
+    ref="C14",
+)
+
 NOT_APPLICABLE = {}
 
 
